@@ -101,6 +101,14 @@ fn mut_i64_1d<S>(mk: &mut dyn FnMut() -> ArrayBase<S, Ix1>, out: &mut Vec<Item>)
     let n = mk().len();
     // Edges built from an owned copy-free array of this representation (only its logical elements count)
     out.push(("Edges::from_array1", "exact", { let e = Edges::from(mk().into_owned()); e.iter().cloned().collect() }));
+    // bin-building strategies on this representation (the quartile-based ones work on a copy of the data)
+    {
+        let a = mk();
+        let strat = |r: Result<(usize, Bins<i64>), ()>| -> Vec<i64> { match r { Ok((nb, bins)) => { let mut v = vec![nb as i64]; for i in 0..bins.len() { v.push(bins.index(i).start); } v } Err(()) => vec![-1] } };
+        out.push(("FreedmanDiaconis::from_array", "exact", strat(ndarray_stats::histogram::strategies::FreedmanDiaconis::from_array(&a).map(|b| (b.n_bins(), b.build())).map_err(|_| ()))));
+        out.push(("Auto::from_array", "exact", strat(ndarray_stats::histogram::strategies::Auto::from_array(&a).map(|b| (b.n_bins(), b.build())).map_err(|_| ()))));
+        out.push(("Sturges::from_array", "exact", strat(ndarray_stats::histogram::strategies::Sturges::from_array(&a).map(|b| (b.n_bins(), b.build())).map_err(|_| ()))));
+    }
     if n == 0 { return; }
     out.push(("get_from_sorted_mut", "exact", vec![mk().get_from_sorted_mut(n / 2)]));
     let idx = array![0usize, n - 1, n / 2, n / 3];
